@@ -64,7 +64,10 @@ def _run_variant(args):
                 raise AnalysisError("rule %s below floor" % rid)
     except AnalysisError as e:
         return ("analysis-error", str(e))
-    return ("ok", sorted({(f.rule, f.key) for f in rep.findings}))
+    found = sorted({(f.rule, f.key) for f in rep.findings})
+    if not found and rep.undecided:
+        return ("analysis-error", "undecided: %s" % [u[:2] for u in rep.undecided][:3])
+    return ("ok", found)
 
 
 def run(ctx, rule_module) -> None:
